@@ -66,7 +66,7 @@ pub fn build(e: &mut Ent, words: [Option<u16>; 5], variant: u32) -> (StepCase, T
     }
     let ccr = e.u8();
     let bus = e.bus_cfg();
-    (StepCase { code, pc, er, ccr, patches: vec![], bus, irq: None }, Tag { words: w })
+    (StepCase { code, pc, er, ccr, patches: vec![], bus, irq: None, primer: None }, Tag { words: w })
 }
 
 fn classify(_case: &StepCase, j: &Judged, t: &Tag, stats: &mut Stats) {
@@ -131,6 +131,9 @@ pub fn prefixes(tier: Tier) -> Vec<(&'static str, Vec<u16>)> {
 
 pub fn run(ctx: &Ctx) -> i32 {
     if let Some(v) = &ctx.replay {
+        if crate::checks::soup::is_soup_replay(v) {
+            return crate::checks::soup::replay(ctx, P, v);
+        }
         if let Some(code) = replay_fuzz(P, v) {
             return code;
         }
@@ -200,6 +203,32 @@ pub fn run(ctx: &Ctx) -> i32 {
     }
     .run();
     stats.exhaustive_subspaces.insert("first words".into(), 65536);
+    // form-balanced phase: uniform words give a multi-word control-flow form a few dozen cases; here every
+    // instruction family's structured builder (the ones C01-C06, C08, C14 use: operands at region edges, frames
+    // and operands overlapping the instruction itself, wrap classes...) feeds the decode question
+    let none = |_: &mut dyn FnMut(&str, Builder<super::c20::Tag>)| {};
+    let fstats = Drive {
+        ctx,
+        property: P,
+        aspects: Aspects::STATE,
+        salt: 0x0702_0000,
+        nshards: 64,
+        enumerated: &none,
+        random_cases: tier.pick(2_000_000, 120_000_000),
+        build_random: &|e| {
+            let (mut c, t) = super::c20::build(e, None);
+            c.bus = e.bus_cfg();
+            (c, t)
+        },
+        classify: &|_c, j, t: &super::c20::Tag, s| {
+            if matches!(j.step.outcome, Outcome::Ok) {
+                s.class(&format!("form-balanced: {}", t.insn.form()));
+            }
+        },
+        all_quirks: true,
+    }
+    .run();
+    stats.merge(fstats);
     if tier == Tier::Thorough {
         fuzz_campaign(ctx, "fuzz_step", 8, 400_000, 64, &mut stats);
     }
@@ -208,6 +237,9 @@ pub fn run(ctx: &Ctx) -> i32 {
     let mut extra = Map::new();
     extra.insert("oracle_selftest".into(), super::selftest::summary());
     extra.insert("decode_classes".into(), json!("Implemented -> must execute as that instruction with its encoded length (full-state comparison) or fail when its operand is inaccessible; ValidUnimplemented -> must return an error; Undefined (not in the conservative table) -> unconstrained, counted as skipped"));
-    let rule = "cases = all 65,536 first instruction words x 4 following-word variants x generated register files; all 65,536 second words for every multi-word prefix class (0100, 0140, 01F0, 01C0/01D0, 78r0, 7Cr0-7Frr, abs24 forms, EEPMOV, 0F0x/1F0x); all third words of the 0100/0140 78r0 forms; the reserved top byte of 24-bit address/displacement words; plus random 5-word streams. Oracle = the reference decode table (exact encodings of DESIGN Appendix A): implemented -> Ok + exact length + full reference post-state; valid-but-unimplemented -> Err. Non-trivial = a valid unimplemented encoding, or an implemented encoding that is multi-word or names a register >= 8; distinct by the instruction's words.";
+    let rule = "cases = all 65,536 first instruction words x 4 following-word variants x generated register files; all 65,536 second words for every multi-word prefix class (0100, 0140, 01F0, 01C0/01D0, 78r0, 7Cr0-7Frr, abs24 forms, EEPMOV, 0F0x/1F0x); all third words of the 0100/0140 78r0 forms; the reserved top byte of 24-bit address/displacement words; plus random 5-word streams; plus a form-balanced phase in which the structured builders of every instruction family (MOV, arithmetic, logic/shift, bit, branch/jump/call/return, TRAPA/RTE, STC, MES trap) supply valid encodings with their special operand classes. Oracle = the reference decode table (exact encodings of DESIGN Appendix A): implemented -> Ok + exact length + full reference post-state; valid-but-unimplemented -> Err. Non-trivial = a valid unimplemented encoding, or an implemented encoding that is multi-word or names a register >= 8; distinct by the instruction's words.";
+    stats.merge(crate::checks::soup::phase(ctx, P, crate::checks::soup::Flavor::All, ctx.tier.pick(300000, 6000000), 0x7510000, false));
+    let rule_soup = format!("{}{}", rule, crate::checks::soup::RULE);
+    let rule: &str = &rule_soup;
     finish(ctx, P, stats, rule, vec!["decode table transcribed from the H8/300H instruction-code table; validated against the 289 distinct encodings of the unit tests and the printf example's instruction trace (see oracle_selftest)".into()], extra)
 }
